@@ -26,6 +26,7 @@ TRUSTED = ['legacy numpy.random / scipy rvs / gaussian_kde.resample / multivaria
 G0 = ir.var('G0', 'U')
 S0 = ir.var('seed_state', 'U')
 S1 = ir.var('reseed_state', 'U')
+S2 = ir.var('other_model_seed_state', 'U')
 M = ir.var('m', 'I')
 
 
@@ -87,6 +88,17 @@ def rng_replay(env):
             bad.append('%s: the global NumPy state changed' % name)
         if a[0][:2] == a[1][:2]:
             bad.append('%s: successive calls repeat the stream' % name)
+    # two models of one family with different seeds, calls interleaved: each stream as if the other model did not exist
+    for name, mkA in makers.items():
+        alone = mkA()
+        a1, a2 = np.asarray(alone.sample(3)).ravel().tolist(), np.asarray(alone.sample(2)).ravel().tolist()
+        A, B = mkA(), mkA()
+        B.set_random_state(4242)
+        i1 = np.asarray(A.sample(3)).ravel().tolist()
+        B.sample(5)
+        i2 = np.asarray(A.sample(2)).ravel().tolist()
+        if (a1, a2) != (i1, i2):
+            bad.append('%s: a second model sampling in between changes this model\'s stream (%r vs %r alone)' % (name, i2, a2))
     # a shared RandomState object must not be consumed in place
     shared = np.random.RandomState(11)
     snap = shared.get_state()[1].copy()
@@ -166,7 +178,7 @@ def fresh_env():
     return I
 
 
-def seeded_checks(chk, tag, I, make_model, call, fq, raises_ok=False):
+def seeded_checks(chk, tag, I, make_model, call, fq, raises_ok=False, interleave=True):
     """make_model(I, c) -> fitted model whose random_state is set to RandomStateObj(S0) by the caller of this helper;
     call(I, c, m) performs sample()."""
     def body(c):
@@ -184,6 +196,11 @@ def seeded_checks(chk, tag, I, make_model, call, fq, raises_ok=False):
             c.out['state_after_1'] = rs_.state if isinstance(rs_, RandomStateObj) else None
             c.out['seed_after'] = seed_obj.state
             c.out['rs_is_seed_obj'] = rs_ is seed_obj
+        # another model of the same family, seeded differently, samples in between: the streams must not interfere
+        if interleave:
+            other = make_model(I, c)
+            I.call_method(other, 'set_random_state', [RandomStateObj(S2)])
+            c.out['other'] = call(I, c, other)
         r2 = call(I, c, m)
         c.out['G_after_2'] = State.rng
         # re-seed and sample again
@@ -229,6 +246,14 @@ def seeded_checks(chk, tag, I, make_model, call, fq, raises_ok=False):
                             bool(t2) and any(adv in ir.subterms(t) for t in t2)),
                    backends=('syntactic',), function=fq, replay=rng_replay,
                    clause='the advanced state is written back to the model and the next call continues from it'))
+        to = terms_of(st['other']) if 'other' in st else None
+        if to is not None:
+            chk.add(Ob('C15.%s.models_do_not_share_a_stream.%d' % (tag, k), [],
+                       ir.const(not any(mentions(t, S2) for t in t1 + t2 + t3) and bool(to) and
+                                not any(mentions(t, S0) or mentions(t, G0) for t in to)),
+                       backends=('syntactic',), function=fq, replay=rng_replay,
+                       clause='a second model with its own seed sampling in between leaves this model\'s stream alone, and its '
+                              'own sample is driven by its own seed only (every interleaving of two models)'))
         chk.add(Ob('C15.%s.reseed_takes_effect.%d' % (tag, k), [],
                    ir.const(bool(t3) and any(mentions(t, S1) for t in t3) and not any(mentions(t, S0) for t in t3)),
                    backends=('syntactic',), function=fq, replay=rng_replay,
@@ -332,7 +357,8 @@ def build(chk):
         def call(I, c, m):
             return I.call_method(m, 'sample', [2])
         with vine.mode():
-            seeded_checks(chk, 'VineCopula_' + vt, I, mk, call, vine.VINE + '.sample')
+            # (the two-model interleaving is exercised on the univariate / bivariate / Gaussian users of the same wrapper)
+            seeded_checks(chk, 'VineCopula_' + vt, I, mk, call, vine.VINE + '.sample', interleave=False)
             unseeded_checks(chk, 'VineCopula_' + vt, I, mk, call, vine.VINE + '.sample')
     build_validate(chk)
     build_datasets(chk)
